@@ -438,6 +438,77 @@ func c01LegacyCase(r *hx.Result, rng *hx.Rng, allPairs bool, probes int) error {
 	return c01Probe(r, rng, st, int(st.TxCount()), allPairs, probes, "legacy-lagging")
 }
 
+// c01LaggingCase: a REAL store whose binary linking lags the linear chain by an arbitrary (non-decreasing)
+// pattern, including lag from genesis (BlTxID = 0 for several txs). Such histories are written by
+// replicas: ReplicateTx takes BlTxID/BlRoot from the supplied header. Headers are crafted here with the
+// BlRoot computed by the harness's own reference Merkle tree.
+func c01LaggingCase(r *hx.Result, rng *hx.Rng, n int, allPairs bool, probes int) error {
+	r.NextCase()
+	dir := hx.TempDir("c01g")
+	defer os.RemoveAll(dir)
+	st, err := store.Open(filepath.Join(dir, "st"), store.DefaultOptions().WithSynced(false).WithMaxConcurrency(1).WithLogger(quietLogger()))
+	if err != nil {
+		return err
+	}
+	defer st.Close()
+	prevAlh := sha256.Sum256(nil)
+	var leaves [][32]byte // leafFor(alh_k)
+	bl := uint64(0)
+	genesisLag := uint64(0)
+	if rng.Chance(50) {
+		genesisLag = 2 + uint64(rng.Intn(4))
+	}
+	for k := uint64(1); k <= uint64(n); k++ {
+		switch {
+		case k == 1:
+			bl = 0
+		case k <= genesisLag:
+			bl = 0
+		case rng.Chance(45): // keep lagging
+		case rng.Chance(50):
+			bl = k - 1
+		default:
+			bl = bl + uint64(rng.Intn(int(k-bl)))
+		}
+		key := []byte(fmt.Sprintf("key%d", k))
+		value := rng.Bytes(1 + rng.Intn(12))
+		entry := store.NewTxEntry(key, nil, len(value), sha256.Sum256(value), 0)
+		dg, err := store.TxEntryDigest_v1_2(entry)
+		if err != nil {
+			return err
+		}
+		ht, _ := htree.New(1)
+		ht.BuildWith([][32]byte{dg})
+		hdr := &store.TxHeader{ID: k, Ts: int64(1_700_000_000 + k), BlTxID: bl, PrevAlh: prevAlh, Version: 1, NEntries: 1, Eh: ht.Root()}
+		if bl > 0 {
+			hdr.BlRoot = refMth(leaves[:bl])
+		}
+		hb, err := hdr.Bytes()
+		if err != nil {
+			return err
+		}
+		var buf []byte
+		put32 := func(v int) { buf = append(buf, byte(v>>24), byte(v>>16), byte(v>>8), byte(v)) }
+		put16 := func(v int) { buf = append(buf, byte(v>>8), byte(v)) }
+		put32(len(hb))
+		buf = append(buf, hb...)
+		put16(len(key))
+		buf = append(buf, key...)
+		put16(0)
+		put32(len(value))
+		buf = append(buf, value...)
+		put16(1)
+		buf = append(buf, 0)
+		ch, err := st.ReplicateTx(context.Background(), buf, false, false)
+		if err != nil {
+			return fmt.Errorf("ReplicateTx(id=%d, bl=%d): %w", k, bl, err)
+		}
+		prevAlh = ch.Alh()
+		leaves = append(leaves, refLeaf(prevAlh[:]))
+	}
+	return c01Probe(r, rng, st, n, allPairs, probes, "replicated-lagging")
+}
+
 func c01StoreCase(r *hx.Result, rng *hx.Rng, n int, allPairs bool, probes int) error {
 	r.NextCase()
 	dir := hx.TempDir("c01")
@@ -792,6 +863,18 @@ func runC01(r *hx.Result, rng *hx.Rng, thorough bool, replay string) error {
 	if err := r.Flush(); err != nil {
 		return err
 	}
+	lagRuns := 6
+	if thorough {
+		lagRuns = 40
+	}
+	for k := 0; k < lagRuns; k++ {
+		if err := c01LaggingCase(r, rng.Fork(), 4+rng.Intn(14), true, 0); err != nil {
+			return fmt.Errorf("lagging store: %w", err)
+		}
+		if err := r.Flush(); err != nil {
+			return err
+		}
+	}
 	for n := 1; n <= exN; n++ {
 		if err := c01StoreCase(r, rng.Fork(), n, true, 0); err != nil {
 			return err
@@ -813,7 +896,7 @@ func runC01(r *hx.Result, rng *hx.Rng, thorough bool, replay string) error {
 		svcRuns, svcOps = 10, 400
 	}
 	for k := 0; k < svcRuns; k++ {
-		if err := c01Service(r, rng.Fork(), svcOps); err != nil {
+		if err := c01Service(r, rng.Fork(), svcOps, k%2 == 0); err != nil {
 			return fmt.Errorf("service-level: %w", err)
 		}
 	}
